@@ -126,22 +126,23 @@ def dashStart (off : α) (d : List α) : Option (Nat × α) :=
     if a.lt off a.zero then some (i, a.neg (a.add (d.foldl a.add a.zero) off))
     else some (i, a.neg off)
 
-/-- Path.checkDash as a function of the path length -/
-def checkDashImpl (off : α) (d : List α) (len : α) : List α × Bool :=
+/-- Path.checkDash as a function of the path length (`fmod` = math.Mod): the pattern is dropped
+(solid stroke) when the first dash covers the whole path, the stroke when the first space does -/
+def checkDashImpl (fmod : α → α → α) (off : α) (d : List α) (len : α) : List α × Bool :=
   let (off, d) := dashCanonical a off d
-  match d with
-  | [] => ([], true)
-  | [x] =>
-    if a.beq x a.zero then ([], false) else
-    match dashStart a off d with
+  if d.isEmpty then ([], true)
+  else if d.length == 1 && a.beq (d.getD 0 a.zero) a.zero then ([], false)
+  else
+    -- dashes and spaces alternate: an odd pattern repeats after twice its length (as in Dash)
+    let dd := if d.length % 2 == 1 then d ++ d else d
+    let total := dd.foldl a.add a.zero
+    let off := fmod off total
+    let off := if a.lt off a.zero then a.add off total else off
+    match dashStart a off dd with
     | none => ([], false)
     | some (i, pos) =>
-      if a.le len (a.sub (d.getD i a.zero) pos) then ([], i % 2 == 0) else (d, true)
-  | _ =>
-    match dashStart a off d with
-    | none => ([], false)
-    | some (i, pos) =>
-      if a.le len (a.sub (d.getD i a.zero) pos) then ([], i % 2 == 0) else (d, true)
+      -- pos is minus the part of dd[i] that lies before the start
+      if a.le len (a.add (dd.getD i a.zero) pos) then ([], i % 2 == 0) else (d, true)
 end Dash
 
 /-! ## state -/
@@ -315,14 +316,16 @@ def Ctx.baseMatrix (o : Ops α) (c : Ctx α) (x y : α) : Mat α :=
 def Ctx.emit (c : Ctx α) (call : Call α) : Ctx α :=
   { c with emitted := c.emitted ++ [call], cv := c.cv.render call }
 
-/-- the loop of DrawPath: `style` is carried from one path to the next (as in the code) -/
+/-- the loop of DrawPath: the code works on one copy `style` of the current style; per path it
+overwrites `Dashes` with the result of checkDash, clears `Stroke` when the path gets no ink, and
+restores `Stroke` after the renderer call — so every path is drawn from the same initial style -/
 def drawPathLoop (o : Ops α) (off : α) (dashes : List α) (m : Mat α) :
     Style α → List (PathRef α) → Ctx α → Ctx α
   | _, [], c => c
   | style, p :: ps, c =>
     let r := o.checkDash off dashes p.len
-    let style := { style with dashes := r.1, stroke := if r.2 then style.stroke else Paint.none }
-    drawPathLoop o off dashes m style ps (c.emit ⟨.path p style, m⟩)
+    let st := { style with dashes := r.1, stroke := if r.2 then style.stroke else Paint.none }
+    drawPathLoop o off dashes m style ps (c.emit ⟨.path p st, m⟩)
 
 def Ctx.drawPath (o : Ops α) (c : Ctx α) (x y : α) (ps : List (PathRef α)) : Ctx α :=
   if !c.st.style.hasFill && !c.st.style.hasStroke o then c
@@ -346,6 +349,12 @@ def Ctx.drawImage (o : Ops α) (c : Ctx α) (x y : α) (i : ImgRef α) (res : α
   let m := o.scale m (o.div o.one res) (o.div o.one res)
   c.emit ⟨.image i, imageFlip o c.st.cs m i.w i.h⟩
 
+/-- `min(int(v), (int(size)-1)/2)` of ImageCover: pixels cropped on each side, at least one row/column stays -/
+def cropOf (o : Ops α) (v size : α) : α :=
+  let a := o.trunc v
+  let b := o.trunc (o.div (o.sub (o.trunc size) o.one) o.two)
+  if o.lt a b then a else b
+
 /-- FitImage; fit: 0 = ImageFill, 1 = ImageContain, 2 = ImageCover (the image is croppable) -/
 def Ctx.fitImage (o : Ops α) (c : Ctx α) (i : ImgRef α) (r : Rct α) (fit : Nat) : Ctx α :=
   if (o.beq i.w o.zero && o.beq i.h o.zero) || rectEmpty o r then c else
@@ -361,11 +370,11 @@ def Ctx.fitImage (o : Ops α) (c : Ctx α) (i : ImgRef α) (r : Rct α) (fit : N
         (r.x0, o.add r.y0 (o.div (o.sub rh (o.div i.h xres)) o.two), xres, xres, i.w, i.h)
     else if fit = 2 then
       if o.lt xres yres then
-        let dy := o.trunc (o.add (o.div (o.sub i.h (o.mul rh xres)) o.two) o.half)
+        let dy := cropOf o (o.add (o.div (o.sub i.h (o.mul rh xres)) o.two) o.half) i.h
         let h' := o.sub i.h (o.mul o.two dy)
         (r.x0, r.y0, xres, o.div h' rh, i.w, h')
       else
-        let dx := o.trunc (o.add (o.div (o.sub i.w (o.mul rw yres)) o.two) o.half)
+        let dx := cropOf o (o.add (o.div (o.sub i.w (o.mul rw yres)) o.two) o.half) i.w
         let w' := o.sub i.w (o.mul o.two dx)
         (r.x0, r.y0, o.div w' rw, yres, w', i.h)
     else (r.x0, r.y0, xres, yres, i.w, i.h)
